@@ -71,9 +71,12 @@ class RegexMatch(Artifact):
         self.key = "R{}".format(id)
         self.id = id
         self.match = m
-        self.mstart = m.span(self.key)[0]
-        self.mend = m.span(self.key)[1]
         self._text = m.group(self.key)
+        self.mstart = m.span(self.key)[0]
+        # several patterns end in optional whitespace; blanks after the matched
+        # words are not part of what was recognised, and counting them gave a
+        # match followed by another word one character more coverage
+        self.mend = m.span(self.key)[1] - (len(self._text) - len(self._text.rstrip()))
 
     def __str__(self) -> str:
         return "{}:{}".format(self.id, self._text)
